@@ -68,6 +68,7 @@ type rootRec struct {
 	N   string `json:"n"`
 	T   string `json:"t"`
 	Tag string `json:"tag"`
+	Ref string `json:"ref"` // value of the ref.name annotation in a hand-built index.json (default: the tag)
 }
 
 type dkEntry struct {
@@ -131,6 +132,7 @@ type scenario struct {
 	Chunk  int      `json:"chunk"`  // 1: the client uploads blobs in small chunks (reg.WithBlobSize)
 	RComp  string   `json:"rcomp"`  // compression of the re-packed archive: none | gzip | zstd | xz
 	TarFmt string   `json:"tarfmt"` // header format of the re-packed archive: pax | gnu | ustar
+	SPath  string   `json:"spath"`  // spelling of the directory of a layout source: plain | odd (a component ends with "_")
 	Origin string   `json:"origin"` // which generator run made it
 }
 
@@ -185,6 +187,14 @@ func main() {
 		os.Exit(2)
 	}
 	d := &driver{scratch: *scratch, cat: map[string]*catRec{}}
+	// layout directories are named relative to the working directory when they lie below it: the name
+	// ImageExport derives for a layout source (Ref.ToReg) then does not depend on the random name of the
+	// scratch directory
+	if cwd, err := os.Getwd(); err == nil {
+		if rel, err := filepath.Rel(cwd, *scratch); err == nil && !strings.HasPrefix(rel, "..") && !filepath.IsAbs(rel) {
+			d.scratch = rel
+		}
+	}
 	var scns []*scenario
 	err := vtrace.ReadLines(*in, func(line []byte) error {
 		var l inLine
@@ -232,10 +242,11 @@ func main() {
 		dflt(&s.TFeat, "default")
 		dflt(&s.RComp, "none")
 		dflt(&s.TarFmt, "pax")
+		dflt(&s.SPath, "plain")
 		if c.Kind == "docker" && c.Lp != "dkrest" {
 			key = fmt.Sprintf("dk/%s/%s/%s/ls%d", c.G, c.Sel.By, s.DkComp, s.DkLS)
 		} else {
-			key = fmt.Sprintf("oci/%s/%s/%s/gz%d/x%d/%s", c.G, s.Src, s.SFeat, s.Gzip, s.XRef, s.XN)
+			key = fmt.Sprintf("oci/%s/%s/%s/gz%d/x%d/%s/%s", c.G, s.Src, s.SFeat, s.Gzip, s.XRef, s.XN, s.SPath)
 		}
 		g := byKey[key]
 		if g == nil {
@@ -569,6 +580,7 @@ type export struct {
 	raw     []byte // the stream as written
 	entries []tarEntry
 	ok      bool
+	desc    json.RawMessage // the descriptor of the exported index.json
 	// dockerName is the name:tag a Docker format import of the archive selects the image by ("" unknown)
 	dockerName string
 }
@@ -605,6 +617,12 @@ func (d *driver) runOCI(key string, scns []*scenario) ([]*blockOut, error) {
 		}
 	} else {
 		srcDir = d.newDir("src")
+		if s0.SPath == "odd" {
+			srcDir = d.newDir("src_") + "_"
+			if err := os.MkdirAll(srcDir, 0o755); err != nil {
+				return nil, err
+			}
+		}
 		if err := writeLayout(srcDir, g, c0.Roots); err != nil {
 			return nil, err
 		}
@@ -626,7 +644,7 @@ func (d *driver) runOCI(key string, scns []*scenario) ([]*blockOut, error) {
 		if top != g.objs[root.N].dig {
 			return nil, fmt.Errorf("source tag %s does not name %s", root.Tag, root.N)
 		}
-		b := &blockOut{Block: fmt.Sprintf("%s#%d", key, ri+1), Kind: "oci", Traces: []*traceOut{}, Meta: map[string]any{"graph": c0.G, "root": root.N}}
+		b := &blockOut{Block: fmt.Sprintf("%s#%d", key, ri+1), Kind: "oci", Traces: []*traceOut{}, Meta: map[string]any{"graph": c0.G, "root": root.N, "srcpath": s0.SPath}}
 		// the name the image is exported under carries a tag, a digest or both (xn); it is the source
 		// reference, or the override given with ImageWithExportRef (the source is then named by tag)
 		suffix := func(tag, xn string) string {
@@ -742,10 +760,37 @@ func (d *driver) runOCI(key string, scns []*scenario) ([]*blockOut, error) {
 // importOCI re-packs and imports one scenario.
 func (d *driver) importOCI(e *env, g *graph, c *catRec, s *scenario, exports []*export, pool map[string][]byte) *traceOut {
 	t := &traceOut{ID: s.ID, Scn: s, Meta: map[string]any{}}
-	want := g.objs[c.Want].dig
-	t.Events = append(t.Events, vtrace.Event{"ev": "imp_begin", "id": s.ID, "want": want})
-	var archive []byte
+	want := ""
+	if o, ok := g.objs[c.Want]; ok {
+		want = o.dig
+	}
+	begin := vtrace.Event{"ev": "imp_begin", "id": s.ID, "want": want, "req": "", "reqtag": "",
+		"ids": []string{}, "refs": []string{}, "reftags": []string{}, "names": []string{}, "nametags": []string{}}
 	var err error
+	if len(c.Roots) > 1 {
+		// an archive as another tool writes it: index.json with one entry per exported image, in the order and
+		// with the ref.name annotations of the scenario; every descriptor comes out of a real export
+		idx, facts, err := buildIndex(c.Roots, exports)
+		if err != nil {
+			fail(fmt.Errorf("scenario %s: %w", s.ID, err))
+		}
+		p2 := map[string][]byte{}
+		for k, v := range pool {
+			p2[k] = v
+		}
+		p2["index"] = idx
+		pool = p2
+		if c.Sel.By != "digest" {
+			// selection by tag / name: what index.json says per entry goes into the trace, (P) decides
+			// which digests the archive names with exactly the request
+			for k, v := range facts {
+				begin[k] = v
+			}
+			begin["want"], begin["req"], begin["reqtag"] = "", c.Sel.V, tagPart(c.Sel.V)
+		}
+	}
+	t.Events = append(t.Events, begin)
+	var archive []byte
 	if len(s.Arch) == 0 {
 		archive = exports[0].raw
 	} else {
@@ -762,19 +807,25 @@ func (d *driver) importOCI(e *env, g *graph, c *catRec, s *scenario, exports []*
 	var rstr string
 	var opts []regclient.ImageOpts
 	switch c.Sel.By {
-	case "tag":
+	case "tag", "default":
 		tag = c.Sel.V
 	case "name":
 		opts = append(opts, regclient.ImageWithImportName(c.Sel.V))
 	}
 	if s.Tgt == "reg" {
 		rstr = fmt.Sprintf("%s/%s:%s", tgtHost, repo, tag)
+		if c.Sel.By == "default" {
+			rstr = fmt.Sprintf("%s/%s", tgtHost, repo) // no tag: the default tag selects
+		}
 		if c.Sel.By == "digest" {
 			rstr = fmt.Sprintf("%s/%s@%s", tgtHost, repo, g.objs[c.Sel.V].dig)
 		}
 	} else {
 		dir = d.newDir("tgt")
 		rstr = fmt.Sprintf("ocidir://%s:%s", dir, tag)
+		if c.Sel.By == "default" {
+			rstr = fmt.Sprintf("ocidir://%s", dir)
+		}
 		if c.Sel.By == "digest" {
 			rstr = fmt.Sprintf("ocidir://%s@%s", dir, g.objs[c.Sel.V].dig)
 		}
@@ -884,6 +935,57 @@ func (d *driver) importOCI(e *env, g *graph, c *catRec, s *scenario, exports []*
 		e.tgt.Unlock()
 	}
 	return t
+}
+
+// tagPart is the tag of a full image name ("registry/repo:tag", "repo:tag"), "" for a bare tag.
+func tagPart(name string) string {
+	i := strings.LastIndex(name, ":")
+	if i < 0 || i < strings.LastIndex(name, "/") {
+		return ""
+	}
+	return name[i+1:]
+}
+
+// buildIndex writes an index.json with one entry per root, in the given order.  The descriptors are the ones
+// the real exports wrote; only the ref.name annotation is replaced when the scenario asks for another value.
+// It also returns what the file says per entry (digest, the two name annotations and their tag parts).
+func buildIndex(roots []rootRec, exports []*export) ([]byte, map[string][]string, error) {
+	facts := map[string][]string{"ids": {}, "refs": {}, "reftags": {}, "names": {}, "nametags": {}}
+	var descs []any
+	for _, r := range roots {
+		var ex *export
+		for _, x := range exports {
+			if x.root.N == r.N {
+				ex = x
+			}
+		}
+		if ex == nil || ex.desc == nil {
+			return nil, nil, fmt.Errorf("no exported descriptor for root %s", r.N)
+		}
+		var dsc map[string]any
+		if err := json.Unmarshal(ex.desc, &dsc); err != nil {
+			return nil, nil, err
+		}
+		ann, _ := dsc["annotations"].(map[string]any)
+		if ann == nil {
+			ann = map[string]any{}
+			dsc["annotations"] = ann
+		}
+		if r.Ref != "" && r.Ref != r.Tag {
+			ann["org.opencontainers.image.ref.name"] = r.Ref
+		}
+		refName, _ := ann["org.opencontainers.image.ref.name"].(string)
+		imgName, _ := ann["io.containerd.image.name"].(string)
+		dig, _ := dsc["digest"].(string)
+		facts["ids"] = append(facts["ids"], dig)
+		facts["refs"] = append(facts["refs"], refName)
+		facts["reftags"] = append(facts["reftags"], tagPart(refName))
+		facts["names"] = append(facts["names"], imgName)
+		facts["nametags"] = append(facts["nametags"], tagPart(imgName))
+		descs = append(descs, dsc)
+	}
+	b, err := json.Marshal(map[string]any{"schemaVersion": 2, "mediaType": mtOCIIndex, "manifests": descs})
+	return b, facts, err
 }
 
 // closureOf lists the nodes reachable from n (n included), in a fixed order.
